@@ -959,6 +959,63 @@ class Engine:
                     return TRUE if r else FALSE
         raise Inconclusive("binop %s on %s" % (tok, xt.id))
 
+    # ---- abstraction of int64 <-> float64 conversions (cfg fp_int_abstract): uninterpreted functions
+    # constrained by sound facts; the facts are discharged with exact IEEE semantics by a lemma harness
+    def abs_int_to_float(self, x):
+        toF = self.ghost.setdefault("toF_uf", z3.Function("i64_to_f64", BV64, F64))
+        r = toF(x)
+        zero = z3.FPVal(0.0, F64)
+        G = self.assume_global
+        G(z3.And(z3.Not(z3.fpIsNaN(r)), z3.Not(z3.fpIsInf(r)), z3.fpLEQ(z3.fpAbs(r), z3.FPVal(9223372036854775808.0, F64))), "float64(int64): finite, magnitude <= 2^63")
+        G(z3.fpIsZero(r) == (x == 0), "float64(int64): zero iff zero")
+        G(z3.Implies(x > 0, z3.fpGT(r, zero)), "float64(int64): sign")
+        G(z3.Implies(x < 0, z3.fpLT(r, zero)), "float64(int64): sign")
+        # powers of two are exact and the conversion is monotone: a coarse magnitude ladder
+        for k in (0, 8, 16, 24, 32, 40, 48, 53, 58, 62):
+            T = 1 << k
+            G(z3.Implies(x >= T, z3.fpGEQ(r, z3.FPVal(float(T), F64))), "float64(int64): x >= 2^k => float >= 2^k")
+            G(z3.Implies(x <= T, z3.fpLEQ(r, z3.FPVal(float(T), F64))), "float64(int64): x <= 2^k => float <= 2^k")
+            G(z3.Implies(x <= -T, z3.fpLEQ(r, z3.FPVal(-float(T), F64))), "float64(int64): x <= -2^k => float <= -2^k")
+            G(z3.Implies(x >= -T, z3.fpGEQ(r, z3.FPVal(-float(T), F64))), "float64(int64): x >= -2^k => float >= -2^k")
+        apps = self.ghost.setdefault("toF_apps", [])
+        for (x2, r2) in apps:
+            G(z3.Implies(x <= x2, z3.fpLEQ(r, r2)), "float64(int64): monotone")
+            G(z3.Implies(x2 <= x, z3.fpLEQ(r2, r)), "float64(int64): monotone")
+        # link with earlier float->int truncations: float64(int64(f)) is not beyond f
+        for (f2, i2) in self.ghost.setdefault("fromF_apps", []):
+            G(z3.Implies(z3.And(x == i2, z3.fpGEQ(f2, zero)), z3.fpLEQ(r, f2)), "float64(int64(f)) <= f for f >= 0")
+            G(z3.Implies(z3.And(x == i2, z3.fpLEQ(f2, zero)), z3.fpGEQ(r, f2)), "float64(int64(f)) >= f for f <= 0")
+            G(z3.Implies(z3.And(x == -i2, z3.fpLEQ(f2, zero), i2 != bv(-(1 << 63))), z3.fpLEQ(r, z3.fpNeg(f2))), "float64(-int64(f)) <= -f for f <= 0")
+        apps.append((x, r))
+        return r
+
+    def abs_float_to_int(self, f):
+        fromF = self.ghost.setdefault("fromF_uf", z3.Function("f64_to_i64", F64, BV64))
+        r = fromF(f)
+        zero = z3.FPVal(0.0, F64)
+        G = self.assume_global
+        inr = z3.And(z3.Not(z3.fpIsNaN(f)), z3.fpLT(z3.fpAbs(f), z3.FPVal(9223372036854775808.0, F64)))
+        G(z3.Implies(z3.And(inr, z3.fpGEQ(f, zero)), r >= 0), "int64(float64): sign")
+        G(z3.Implies(z3.And(inr, z3.fpLEQ(f, zero)), r <= 0), "int64(float64): sign")
+        G(z3.Implies(z3.And(inr, z3.fpGEQ(z3.fpAbs(f), z3.FPVal(1.0, F64))), r != 0), "int64(float64): |f| >= 1 gives a non-zero integer")
+        G(z3.Implies(z3.And(inr, z3.fpLT(z3.fpAbs(f), z3.FPVal(1.0, F64))), r == 0), "int64(float64): |f| < 1 truncates to 0")
+        for k in (0, 8, 16, 24, 32, 40, 48, 53, 58, 62):
+            T = 1 << k
+            G(z3.Implies(z3.And(inr, z3.fpGEQ(f, z3.FPVal(float(T), F64))), r >= T), "int64(float64): f >= 2^k => int >= 2^k")
+            G(z3.Implies(z3.And(inr, z3.fpLEQ(f, z3.FPVal(float(T), F64))), r <= T), "int64(float64): f <= 2^k => int <= 2^k")
+            G(z3.Implies(z3.And(inr, z3.fpLEQ(f, z3.FPVal(-float(T), F64))), r <= -T), "int64(float64): f <= -2^k => int <= -2^k")
+            G(z3.Implies(z3.And(inr, z3.fpGEQ(f, z3.FPVal(-float(T), F64))), r >= -T), "int64(float64): f >= -2^k => int >= -2^k")
+        apps = self.ghost.setdefault("fromF_apps", [])
+        for (f2, r2) in apps:
+            G(z3.Implies(z3.And(inr, z3.fpLEQ(f, f2)), r <= r2), "int64(float64): monotone")
+            G(z3.Implies(z3.And(inr, z3.fpLEQ(f2, f)), r2 <= r), "int64(float64): monotone")
+            G(z3.Implies(z3.And(inr, z3.fpEQ(f, z3.fpNeg(f2))), r == -r2), "int64(float64): odd")
+        for (x2, r2) in self.ghost.setdefault("toF_apps", []):
+            # truncation is towards zero: int64(f) does not exceed an integer whose float is >= f, for f >= 0
+            G(z3.Implies(z3.And(inr, z3.fpGEQ(f, zero), z3.fpLEQ(f, r2), x2 >= 0), r <= x2), "int64(f) <= x when 0 <= f <= float64(x)")
+        apps.append((f, r))
+        return r
+
     def map_const_ite(self, x, f, isconst, depth=4):
         """x is an if-then-else tree whose leaves are all constants: rebuild it with f applied to the leaves"""
         if isconst(x):
@@ -976,7 +1033,14 @@ class Engine:
             # a small constant-leaf tree (e.g. float64(Sgn(d))) times y: distribute, each product is exact
             for a, b in ((x, y), (y, x)):
                 if not self.is_fp_const(a) and z3.is_app_of(a, z3.Z3_OP_ITE):
-                    t = self.map_const_ite(a, lambda c: z3.fpMul(RNE, c, b), z3.is_fp_value)
+                    def mulc(c, b=b):
+                        cs = z3.simplify(z3.fpToIEEEBV(c)).as_long()
+                        if cs == 0x3ff0000000000000:
+                            return b
+                        if cs == 0xbff0000000000000:
+                            return z3.fpNeg(b)
+                        return z3.fpMul(RNE, c, b)
+                    t = self.map_const_ite(a, mulc, z3.is_fp_value)
                     if t is not None:
                         return t
         if mode == "exact" or self.is_fp_const(x) and self.is_fp_const(y):
@@ -1149,6 +1213,8 @@ class Engine:
             t = self.map_const_ite(x, lambda c: z3.FPVal(float(c.as_signed_long() if su.d["signed"] else c.as_long()), srt), z3.is_bv_value)
             if t is not None:
                 return t
+            if self.cfg.get("fp_int_abstract") and su.d["bits"] == 64 and su.d["signed"] and du.d["bits"] == 64:
+                return self.abs_int_to_float(x)
             if su.d["signed"]:
                 return z3.fpSignedToFP(RNE, x, srt)
             return z3.fpUnsignedToFP(RNE, x, srt)
@@ -1162,6 +1228,8 @@ class Engine:
             inr = And(Not(z3.fpIsNaN(x)), z3.fpGEQ(x, z3.FPVal(lo, srt)) if signed else z3.fpGT(x, z3.FPVal(-1.0, srt)), z3.fpLT(x, z3.FPVal(hi, srt)))
             if not self.cfg.get("fp_conv_unchecked", False):
                 self.oblige("conv", inr, pos=pos)
+            if self.cfg.get("fp_int_abstract") and signed and db == 64 and x.sort() == F64:
+                return self.abs_float_to_int(x)
             if signed:
                 return z3.fpToSBV(RTZ, x, z3.BitVecSort(db))
             return z3.fpToUBV(RTZ, x, z3.BitVecSort(db))
